@@ -15,6 +15,18 @@ CHECKS = {
          'explicit-state BFS over operation histories; per-state raw invariants with sqlite3+zlib only',
          'Same exhaustive history space as C02; every distinct on-disk state is read without the library (sqlite3, slices, zlib, hashlib) and must satisfy the index/pack/loose invariants and reproduce every model object.',
          'Same bounds as C02; stdlib sqlite3/zlib stand in for the CLI tools of the documented recovery script.', '5 C03, 2.2'),
+ 'C05': ('crashx', 'fault_enumeration',
+         'exhaustive crash-point enumeration: kill image at every mutating I/O call boundary of every operation variant, on the real library',
+         'One instrumented run per scenario yields the OS-visible image before every mutating call (and after return); every image is checked raw (sqlite3+zlib) and through a fresh handle. Exhaustive over boundaries for the listed operation variants and pre-states.',
+         'Kills inside one write(2) or inside SQLite are not enumerated; SQLite WAL recovery trusted; tmpfs semantics.', '5 C05, 3 E3'),
+ 'C06': ('crashx', 'fault_enumeration',
+         'exhaustive crash-point enumeration with the adversarial power-loss image (only last-fsynced bytes of every regular file survive)',
+         'Same boundaries as C05; each image keeps only the bytes present at the last fsync of each inode (tracked through renames and hard links), while directory operations and committed SQLite transactions survive; same oracle as C05.',
+         'Storage model as stated in the property; reordering between directory operations not modelled; F_FULLFSYNC path not executable on Linux.', '5 C06, 3 E3'),
+ 'C17': ('crashx', 'fault_enumeration',
+         'exhaustive single-fault injection: every faultable I/O call of every operation variant x fault kind, one per execution, on the real library',
+         'Each execution fails exactly one call (EIO; half-written+ENOSPC for writes; OperationalError for commits); afterwards raw state, fresh handle, the faulted handle and a rerun to the normal result are checked.',
+         'Single faults only; faults inside SQLite / on reads not injected; injection at the Python call boundary.', '5 C17, 3 E3'),
 }
 
 NOT_YET = {
